@@ -38,6 +38,14 @@ class RaisingBlock(BaseModbusDataBlock):
 
 def mk_slave(desc):
     blocks = [RaisingBlock() if b['kind'] == 'broken' else mk_block(b) for b in desc['blocks']]
+    omit = desc.get('omit') or []
+    if omit:
+        # tables the caller leaves out: ModbusSlaveContext creates their (default) blocks itself; those are what is dumped
+        kw = {k: blocks[desc[t]] for t, k in (('d', 'di'), ('c', 'co'), ('i', 'ir'), ('h', 'hr')) if t not in omit}
+        ctx = ModbusSlaveContext(zero_mode=desc['zero'], **kw)
+        for t in omit:
+            blocks[desc[t]] = ctx.store[t]
+        return ctx, blocks
     ctx = ModbusSlaveContext(di=blocks[desc['d']], co=blocks[desc['c']], ir=blocks[desc['i']],
                              hr=blocks[desc['h']], zero_mode=desc['zero'])
     return ctx, blocks
